@@ -4,20 +4,43 @@
    CorePhase2AcctFd, CorePhase2AcctAct, CorePhase2AcctLoop, CorePhase2AcctTear,
    CorePhase2AcctEnd, CorePhase2AcctEv, CorePhase2AcctEvLoop, CorePhase2AcctWait,
    [the family CorePhase2K1Base, K1Fd, K1Act, K1Inv, K1Loop, K1Wait, K1Poll, CorePhase2K1],
-   CorePhase2AcctK, CorePhase2AcctCrash, CorePhase2Acct. *)
+   CorePhase2AcctK, CorePhase2AcctCrash, CorePhase2AcctOwn, CorePhase2AcctOwnAct, CorePhase2AcctOwnLoop,
+   CorePhase2AcctOwnWait, CorePhase2AcctOwnTop, CorePhase2Acct. *)
 From Coq Require Import List ZArith Bool Lia.
 From Ivv Require Import Core.Kernel Core.CoreTypes Core.CoreFd Core.CoreModel Core.Monitors Core.GuardMon Core.CoreSpec
   Core.CoreRel.
 From Ivv Require Export Core.CorePhase2AcctTr Core.CorePhase2AcctTr2 Core.CorePhase2AcctMon Core.CorePhase2AcctMon2
   Core.CorePhase2AcctFd Core.CorePhase2AcctAct Core.CorePhase2AcctLoop Core.CorePhase2AcctTear Core.CorePhase2AcctEnd
-  Core.CorePhase2AcctEv Core.CorePhase2AcctEvLoop Core.CorePhase2AcctWait Core.CorePhase2AcctK Core.CorePhase2AcctCrash.
+  Core.CorePhase2AcctEv Core.CorePhase2AcctEvLoop Core.CorePhase2AcctWait Core.CorePhase2AcctK Core.CorePhase2AcctCrash Core.CorePhase2AcctOwnTop.
 Import ListNotations.
 Local Open Scope Z_scope.
+
+(* ---------- C18: 1801, 1802, 1804 and 706 ---------- *)
+Lemma ev_codes_18 : forall e c, In c (ev_codes e) -> in_range 1800 1900 c = true -> c = 1801 \/ c = 1802 \/ c = 1804.
+Proof.
+  intros e c H R. destruct e; try (destruct n); cbn [ev_codes In] in H;
+    repeat (destruct H as [<-|H]; [try (vm_compute in R; discriminate R); tauto|]); contradiction.
+Qed.
+
+Theorem core_mon_C18 : forall sc, wf_scenario sc ->
+  mon_C18 (run_scenario sc) = true /\ (forall c, In c (mon_fails (run_scenario sc)) -> ~ In c [706]).
+Proof.
+  intros sc WF. split.
+  - unfold mon_C18, none_in. apply negb_true_iff.
+    destruct (existsb (in_range 1800 1900) (mon_fails (run_scenario sc))) eqn:E; [|reflexivity].
+    apply existsb_exists in E. destruct E as (c & H & R). exfalso.
+    destruct (fails_origin _ c H) as (e & _ & C).
+    destruct (ev_codes_18 e c C R) as [ -> | [ -> | -> ] ];
+      [exact (core_code_1801 sc WF H)|exact (core_code_1802 sc WF H)|exact (core_code_1804 sc WF H)].
+  - intros c H [<-|[]]. exact (core_code_706 sc WF H).
+Qed.
 
 (* codes proved so far, one lemma per code *)
 Check core_code_701.  Check core_code_702.  Check core_code_706.   (* CorePhase2AcctEnd.v *)
 Check core_code_705.  Check core_code_708.  Check core_code_710.   (* CorePhase2AcctK.v *)
 Check core_code_1801. Check core_code_1804.                        (* CorePhase2AcctCrash.v *)
+Check core_code_1802.                                              (* CorePhase2AcctOwnTop.v *)
+Check core_mon_C18.
 Print Assumptions core_code_701.
 Print Assumptions core_code_702.
 Print Assumptions core_code_706.
@@ -26,3 +49,5 @@ Print Assumptions core_code_708.
 Print Assumptions core_code_710.
 Print Assumptions core_code_1801.
 Print Assumptions core_code_1804.
+Print Assumptions core_code_1802.
+Print Assumptions core_mon_C18.
